@@ -40,12 +40,11 @@ Definition z0 : Qc := Q2Qc 0.
    replaced by 0); complete block = model layout, then parse with the code's rule *)
 Definition check_orca_layout (w : nat) (M : list (list Qc)) (lines : list (list Qc)) : bool :=
   mat_eqb (orca_lines z0 w M) lines.
-Definition check_orca_parse (R : nat) (lines : list (list Qc)) (cls : nat) (impl : list (list Qc)) : bool :=
-  res_mat (orca_parse R lines) cls impl.
-Definition check_orca_file (has_end : bool) (R : nat) (lines : list (list Qc)) (cls : nat) (impl : list (list Qc)) : bool :=
-  res_mat (orca_hess_file has_end R lines) cls impl.
-Definition check_blocks (w : nat) (M : list (list Qc)) : bool :=
-  mat_eqb (unblocks (List.length M) (blocks w M)) M.
+(* the .hess lines from the first column-number line on; a "$end" line is passed as the single token -1 *)
+Definition end_tok : Qc := Q2Qc (-1 # 1).
+Definition is_end_row (l : list Qc) : bool := match l with [x] => Qc_eq_bool x end_tok | _ => false end.
+Definition check_orca_file (R : nat) (lines : list (list Qc)) (cls : nat) (impl : list (list Qc)) : bool :=
+  res_mat (orca_hess_file is_end_row R lines) cls impl.
 
 Definition strip2 {T} (l : list T) : list T := firstn (List.length l - 2) l.
 Definition check_qchem_layout (w : nat) (M : list (list Qc)) (lines : list (list Qc)) : bool :=
@@ -65,6 +64,11 @@ Definition check_tri_n (L n : nat) : bool := tri_n L =? n.
 (* the same integer-square-root formula over Z, for counts too large for unary nat *)
 Definition check_tri_nZ (L n : Z) : bool := ((Z.sqrt (8 * L + 1) - 1) / 2 =? n)%Z.
 
+(* "last marker wins": the scanning loop on (marker block | other line) sequences *)
+Inductive oln : Type := Mk (b : list (list Qc)) | Ot.
+Definition to_oline (o : oln) : @oline Qc := match o with Mk b => Marker b | Ot => Other end.
+Definition check_scan (ls : list oln) (impl : list (list Qc)) : bool :=
+  closeM tol (scan [] (map to_oline ls)) impl.
 (* per-atom table: n rows after `skip` lines *)
 Definition check_table (n skip : nat) (after : list (list Qc)) (cls : nat) (impl : list (list Qc)) : bool :=
   res_mat (table_parse n skip after) cls impl.
@@ -96,11 +100,15 @@ Definition frame_eqb (a b : frame) : bool :=
   list_eqb ratom_eqb (f_atoms a) (f_atoms b) && opt_eqb str_eqb (f_charge a) (f_charge b) &&
   opt_eqb str_eqb (f_mult a) (f_mult b) && opt_eqb str_eqb (f_solvent a) (f_solvent b) &&
   opt_eqb str_eqb (f_energy a) (f_energy b).
-Definition check_read_molecules (elements : list str) (key : str) (ls : list xline) (cls : nat)
-           (expect : list frame) : bool :=
-  match read_molecules (valid_in elements) key ls, cls with
+Definition check_read_molecules (elements : list str) (key : str) (ints mults floats solvs : list str)
+           (ls : list xline) (cls : nat) (expect : list frame) : bool :=
+  match read_molecules (valid_in elements) key (valid_in ints) (valid_in mults) (valid_in floats) (valid_in solvs) ls, cls with
   | Ok fs, 0 => list_eqb frame_eqb fs expect
   | ErrOther, 4 => true
   | ErrFormat, 3 => true
   | _, _ => false
   end.
+(* the side condition of Props.xyz_title_lookup on a title the real writer produced *)
+Definition lookup_all (t : str) (c m : str) (s e : option str) : bool :=
+  opt_eqb str_eqb (sd_get (s_ "charge") t) (Some c) && opt_eqb str_eqb (sd_get (s_ "mult") t) (Some m) &&
+  opt_eqb str_eqb (sd_get (s_ "solvent_name") t) s && opt_eqb str_eqb (sd_get (s_ "E") t) e.
